@@ -726,6 +726,13 @@ func genICase(rt *rapid.T, maxReqs int) *ICase {
 			rq.Custom = `"custom-` + id + `,x" , ,`
 			rq.Referer = "http://ref/" + id + "?a=1,2&b=x;y"
 		}
+		// request targets with escaped bytes: logged as the client sent them (URL.String()), not decoded
+		switch rapid.IntRange(0, 5).Draw(rt, "urlform") {
+		case 0:
+			rq.URL = fmt.Sprintf("/p/%s%%20with%%20space/%%C3%%A9?q=%d&r=a%%20b", id, i)
+		case 1:
+			rq.URL = fmt.Sprintf("/p/%s%%2Fslash/x?q=%d", id, i)
+		}
 	}
 	return c
 }
